@@ -736,6 +736,9 @@ class Messenger(Connection):
                 # flush the buffers ahead of TLS
                 while self.__tx_buf:
                     self._avail_tx_notls()
+                # nothing which arrived in the clear is part of the secured
+                # session (the peer speaks again only after the handshake)
+                self.__rx_buf = b''
 
                 # Either case, TLS handshake begins
                 try:
